@@ -10,7 +10,7 @@ from typing import Any
 import pyarrow as pa
 
 import vgi_rpc.rpc._server as srv
-from lib_server import CONNECTION_ENDING, UserError, World, method_info, raise_
+from lib_server import CONNECTION_ENDING, UserError, World, method_info, raise_, user_cls
 from pyvc.api import *  # noqa: F403
 from pyvc.api import PyRaise
 from vgi_rpc.rpc._common import MethodType
@@ -45,13 +45,13 @@ def install_common(S: Any, W: World, info: Any) -> dict[str, Any]:
         def on_start(S, h, *a, **k):
             S.event("hook_start")
             if hook_mode == "start_raises":
-                raise_(UserError, "hook start")
+                raise_(user_cls(S), "hook start")
             return "hook-token"
 
         def on_end(S, h, *a, **k):
             S.event("hook_end")
             if hook_mode == "end_raises":
-                raise_(UserError, "hook end")
+                raise_(user_cls(S), "hook end")
 
         H["Hook.on_dispatch_start"] = on_start
         H["Hook.on_dispatch_end"] = on_end
@@ -93,7 +93,7 @@ def run_serve_unary(S: Any, writes_may_fail: bool = False) -> dict[str, Any]:
         k = S.choose(2)
         impl_mode["v"] = ["returns", "raises"][k]
         if k == 1:
-            raise_(UserError, S.str("user_error_text"))
+            raise_(user_cls(S), S.str("user_error_text"))
         return S.opaque("result_value", "PyVal?")
 
     S.handlers["UserMethod.__call__"] = user_method
@@ -164,7 +164,7 @@ def run_serve_stream(S: Any, writes_may_fail: bool = False, reader_may_fail: boo
     def user_method(S, m, **kwargs):
         S.event("impl_invoked")
         if result_mode == "raises":
-            raise_(UserError, S.str("user_error_text"))
+            raise_(user_cls(S), S.str("user_error_text"))
         if result_mode == "not_a_stream":
             junk = SObj(None, kind="NotAStream")
             junk.closed = True
@@ -222,10 +222,10 @@ def run_serve_stream(S: Any, writes_may_fail: bool = False, reader_may_fail: boo
     H["_drain_stream"] = drain
 
     # ---- per-input processing (each step may fail like user/pyarrow code can)
-    def may_raise(tag, cls=UserError):
+    def may_raise(tag, cls=None):
         if S.choose(2) == 1:
             S.event("step_failed", tag)
-            raise_(cls, tag)
+            raise_(cls or user_cls(S), tag)
 
     def resolve_external(S, batch, cm, config, ipc_validation=None):
         may_raise("resolve_external", RuntimeError)
